@@ -39,6 +39,7 @@ pub fn generate(suite: &str, tier: &str, seed: u64) -> Vec<String> {
         "c10" => c10::generate(&mut rng, thorough),
         "c13" => zone::generate_c13(&mut rng, thorough),
         "c15" => tzdb::generate(&mut rng, thorough),
+        "c15s" => tzdb::generate_slice(&mut rng, thorough),
         "c19" => c19::generate(&mut rng, thorough),
         "c11" => c11::generate(&mut rng, thorough),
         "c12" => c12::generate(&mut rng, thorough),
@@ -52,7 +53,7 @@ pub fn generate(suite: &str, tier: &str, seed: u64) -> Vec<String> {
 
 /// Suites whose lines are evaluated under the per-line watchdog (see guard.rs).
 pub fn guarded(suite: &str) -> bool {
-    matches!(suite, "c03" | "c15" | "c20" | "c16")
+    matches!(suite, "c03" | "c15" | "c15s" | "c20" | "c16")
 }
 
 pub fn eval_more(t: &[&str]) -> String {
